@@ -17,13 +17,12 @@ from .C05 import mk_ast
 B = "guppylang_internals.cfg.builder"
 
 
-def run(ctx: Ctx) -> bool:
-    idx = ctx.idx
+def interpret(idx, is_async: int = 0):
+    """Interprets `desugar_comprehension` on `[ELT for t in ITER if GUARD]`; returns (outcome, visited, generators made, tokens)."""
     f = idx.find_func("desugar_comprehension", B)
-    key = f"{f.qualname}#iterator-guard-and-element-are-desugared"
     ps = [a.arg for a in f.node.args.args]
     it, guard, elt = (mk_ast("Operand", nm, __ident__=True, _fields=()) for nm in ("ITER", "GUARD", "ELT"))
-    gen = Tok("generator", __class__="comprehension", target=mk_ast("Name", "t", id="t", __ident__=True), iter=it, ifs=[guard], is_async=0, __ident__=1)
+    gen = Tok("generator", __class__="comprehension", target=mk_ast("Name", "t", id="t", __ident__=True), iter=it, ifs=[guard], is_async=is_async, __ident__=1)
     node = mk_ast("ListComp", "comp", elt=elt, generators=[gen], __ident__=True)
     visited: list = []
 
@@ -43,14 +42,25 @@ def run(ctx: Ctx) -> bool:
            "ExprBuilder": lambda nd, e, env: Tok("expr_builder", __methods__={"visit": m_visit}, __ident__=1),
            "make_var": lambda nd, e, env: Tok("it_var", __class__="Name", __ident__=1), "next": lambda nd, e, env: "%tmp", "make_assign": lambda nd, e, env: Tok("assign"),
            "with_loc": lambda nd, e, env: e.ev(nd.args[1], env), "MakeIter": lambda nd, e, env: Tok("make_iter"), "IterNext": lambda nd, e, env: Tok("iter_next"),
-           "DesugaredGenerator": h_gen}
+           "DesugaredGenerator": h_gen, "UnsupportedError": lambda nd, e, env: Tok("UnsupportedError")}
     try:
         out = PyEval(idx, B, max_depth=4).run(f.node.body, env)
     except Raised as e:
-        ctx.undecided("R-C17.3", key, f.where, f"raises {e.cls or e}")
-        return False
+        out = ("raise", e.cls or str(e))
+    return out, visited, made, (gen, it, guard, elt)
+
+
+def run(ctx: Ctx) -> bool:
+    idx = ctx.idx
+    f = idx.find_func("desugar_comprehension", B)
+    key = f"{f.qualname}#iterator-guard-and-element-are-desugared"
+    try:
+        out, visited, made, (gen, it, guard, elt) = interpret(idx)
     except Unsupported as e:
         ctx.undecided("R-C17.3", key, f.where, str(e))
+        return False
+    if out[0] == "raise":
+        ctx.undecided("R-C17.3", key, f.where, f"raises {out[1]}")
         return False
     if out[0] != "return" or not made:
         ctx.undecided("R-C17.3", key, f.where, f"unexpected outcome {out!r}"[:100])
